@@ -6,7 +6,9 @@ is written as a .pyi and its AST is written with io.write_pickle
 (serialize_ast.PrepareForExport + pickle_utils).  A downstream module B
 
     import a                     (or `import pkg.sub.a` / `from pkg.sub import a`)
-    x = a.x                      for every public constant / function / class
+    x = a.x                      for every public constant / function
+    zz_k_C = a.C                 for every public class (another local name, so that a bare `C`
+                                 in the downstream stub can only be a missing module prefix)
     zz_c_C = a.C(<ground args>)  when the stub constructor can be satisfied
     zz_at_C_attr = zz_c_C.attr   for every attribute along the stub MRO
     zz_m_C_m = zz_c_C.m(...)     for methods whose parameters are simple
@@ -91,8 +93,8 @@ def build_downstream(stub, modname, rng, import_style):
   for name in sorted(stub.classes):
     if not public(name):
       continue
-    add(f"{name} = {ref}.{name}", {"kind": "class", "bname": name, "what": name,
-                                   "expect": ("g", "type", (("n", name),))})
+    add(f"zz_k_{name} = {ref}.{name}", {"kind": "class", "bname": f"zz_k_{name}", "what": name,
+                                        "expect": ("g", "type", (("n", name),))})
     ci = stub.classes[name]
     inst = f"zz_c_{name}"
     p = {"kind": "instance", "bname": inst, "what": f"{name}(...)"}
@@ -233,6 +235,42 @@ def skeleton(t, classes, depth=0):
   return "..."
 
 
+def _head(t, classes):
+  k = t[0]
+  if k == "n":
+    return "<A-class>" if t[1] in classes else t[1]
+  return {"u": "Union", "g": t[1] if k == "g" else "", "l": "[...]", "c": "<literal>", "e": "..."}[k]
+
+
+def diff_mechanism(e, g, classes):
+  """Describes the smallest differing sub-term of two normalised types (path-free)."""
+  if e is None or g is None:
+    return f"{'<none>' if e is None else _head(e, classes)} became {'<none>' if g is None else _head(g, classes)}"
+  if g == ("n", "Any"):
+    return f"{_head(e, classes)} became Any"
+  if e[0] == "u" or g[0] == "u":
+    em = set(e[1]) if e[0] == "u" else {e}
+    gm = set(g[1]) if g[0] == "u" else {g}
+    lost, gained = em - gm, gm - em
+    if len(lost) == 1 and len(gained) == 1:
+      return "in a union: " + diff_mechanism(next(iter(lost)), next(iter(gained)), classes)
+    hs = lambda xs: ", ".join(sorted({_head(x, classes) for x in xs}))
+    return f"union lost {{{hs(lost)}}} gained {{{hs(gained)}}}"
+  if e[0] == g[0] and e[0] in ("g", "l") and (e[0] == "l" or e[1] == g[1]):
+    ea, ga = (e[2], g[2]) if e[0] == "g" else (e[1], g[1])
+    h = _head(e, classes)
+    if len(ea) != len(ga):
+      return f"{h}[{len(ea)} parameter(s)] became {h}[{len(ga)} parameter(s)]"
+    ds = [(a, b) for a, b in zip(ea, ga) if a != b]
+    if len(ds) == 1:
+      return diff_mechanism(ds[0][0], ds[0][1], classes)
+    return f"{h}[...]: {len(ds)} parameters differ"
+  he, hg = _head(e, classes), _head(g, classes)
+  if he == hg:
+    return f"{he}: different {'classes' if he == '<A-class>' else 'contents'}"
+  return f"{he} became {hg}"
+
+
 def judge(stub_a, probes, b_results, modname):
   """b_results: {transport: (pyi, errors)}.  Returns (violations, counts)."""
   from vf.oracle import c06_types as T
@@ -263,7 +301,12 @@ def judge(stub_a, probes, b_results, modname):
   for tname in TRANSPORTS:
     pyi, err = b_results[tname]
     bad_lines = set()
+    cnt("downstream_error_logs_checked")
+    import_broken = False
     for name, line, msg in err:
+      cnt("downstream_errors_seen:" + name)
+      if name in BAD_ERRORS and line == 1:
+        import_broken = True
       if name in BAD_ERRORS:
         cnt("bad_errors")
         probe = next((p for p in probes if p.get("line") == line), None)
@@ -274,8 +317,11 @@ def judge(stub_a, probes, b_results, modname):
     if pyi in judged_texts:
       continue
     judged_texts.add(pyi)
+    if import_broken:
+      cnt("not_judged:all probes of a transport whose import line failed (reported once as the import error)")
+      continue
     try:
-      sb = T.Stub(pyi, prefixes={modname, modname.rsplit(".", 1)[-1]})
+      sb = T.Stub(pyi, prefixes={modname, modname.rsplit(".", 1)[-1]}, foreign=classes)
     except SyntaxError as e:
       cnt("not_judged:downstream stub not parseable by ast")
       continue
@@ -311,6 +357,13 @@ def judge(stub_a, probes, b_results, modname):
           continue
         es = p["expect_sig"]
         if gs == es:
+          cnt("agree:func")
+          if sb.N.bare_foreign:
+            bare = sorted(set(sb.N.bare_foreign) - set(sb.consts) - set(sb.classes))
+            if bare:
+              vio.append(("downstream stub names an upstream class without its module prefix",
+                          {"transport": tname, "probe": _pub(p), "names": bare}))
+          del sb.N.bare_foreign[:]
           # TypeVars used must be defined identically
           used = set()
           for _, _, t, _ in es["params"]:
@@ -341,11 +394,20 @@ def judge(stub_a, probes, b_results, modname):
         continue
       if got == p["expect"]:
         cnt(f"agree:{k}")
+        if sb.N.bare_foreign:
+          bare = sorted(set(sb.N.bare_foreign) - set(sb.consts) - set(sb.classes))
+          if bare:
+            vio.append(("downstream stub names an upstream class without its module prefix",
+                        {"transport": tname, "probe": _pub(p), "names": bare}))
+        del sb.N.bare_foreign[:]
         continue
-      vio.append((f"{_KIND_TEXT[k]} of type {skeleton(p['expect'], classes)} seen downstream as "
-                  f"{skeleton(got, classes)}",
+      vio.append((f"{_KIND_TEXT[k]}: {diff_mechanism(p['expect'], got, classes)}",
                   {"transport": tname, "probe": _pub(p), "expected": T.show(p["expect"]),
                    "got": T.show(got)}))
+    if sb.N.absorbed:
+      cnt("normalisation: G[...] absorbed by a bare G in a union (downstream stub)", sb.N.absorbed)
+  if stub_a.N.absorbed:
+    cnt("normalisation: G[...] absorbed by a bare G in a union (upstream stub)", stub_a.N.absorbed)
   return vio, counts
 
 
@@ -371,7 +433,7 @@ def _sig_show(s):
 
 def _sig_mechanism(es, gs, classes):
   if es["ret"] != gs["ret"]:
-    return f"return {skeleton(es['ret'], classes)} became {skeleton(gs['ret'], classes)}"
+    return "return type: " + diff_mechanism(es["ret"], gs["ret"], classes)
   if len(es["params"]) != len(gs["params"]):
     return "number of parameters"
   for a, b in zip(es["params"], gs["params"]):
@@ -381,7 +443,7 @@ def _sig_mechanism(es, gs, classes):
       if a[1] != b[1]:
         return "parameter name"
       if a[2] != b[2]:
-        return f"parameter type {skeleton(a[2], classes)} became {skeleton(b[2], classes)}"
+        return "parameter type: " + diff_mechanism(a[2], b[2], classes)
       return "parameter default presence"
   if es["decorators"] != gs["decorators"]:
     return f"decorators {list(es['decorators'])} became {list(gs['decorators'])}"
@@ -526,7 +588,7 @@ def run(tier, seed):
             "has a class with attributes, a parameterised container type and a function with a non-Any return; "
             "distinct by hash of the upstream source."))
   if tier == "quick":
-    n, per = 80, 5
+    n, per = 128, 8
   else:
     n, per = 1200, 15
   if os.environ.get("VERIF_C06_N"):           # development aid only
